@@ -1444,6 +1444,8 @@ class Interp(object):
         if isinstance(e.func, ast.Attribute):
             base = self.expr(e.func.value, fr)
             args, kwargs = self._args(e, fr)
+            if absmodels.is_dt_record(base) and e.func.attr == 'replace' and not args:
+                return absmodels.dt_record_replace(self, base, kwargs)
             if isinstance(base, (ModuleV, Obj, ClassV, TypeV, Builtin, SuperV)) or (isinstance(base, Func) and e.func.attr in base.attrs):
                 fv = self.getattr(base, e.func.attr, e.func)
                 return self.call(fv, args, kwargs)
